@@ -221,6 +221,12 @@ pub fn gen_synth(u: &mut Unstructured) -> Result<Synth> {
         transitions.push((t, u.int_in_range(0..=types.len() as u8 - 1)?));
         t += u.int_in_range(1..=40_000_000i64)?;
     }
+    // a transition time whose bytes spell the format's own magic ("TZif" = 0x545A6966,
+    // 2014-11-05T18:16:06Z): a reader that looks for the second header by searching for the
+    // magic finds it inside the 32-bit table
+    if u.coin(1, 12)? && transitions.last().map(|x| x.0 < 0x545A_6966).unwrap_or(true) {
+        transitions.push((0x545A_6966, u.int_in_range(0..=types.len() as u8 - 1)?));
+    }
     // tail consistent with the footer
     if let Some(r) = &rule {
         let want_tail = !transitions.is_empty() || u.coin(1, 2)?;
